@@ -25,12 +25,22 @@ Inductive hop :=
 | HAnnounce (now : Z) (ih : bytes) (param : option tokv) (o : Z) (o_msg : bytes)
 | HScrape (param : option tokv) (o : Z).
 
+(* the log of an overlap case; versions are indices into the list of key sets the endpoint published in turn *)
+Inductive oev :=
+| OServed (ver : nat)        (* a GET arrived at the endpoint and was answered (perhaps slowly) with this version *)
+| OReturned (ver : nat)      (* a refresh the driver started (the periodic one) returned, having been served ver *)
+| OAnnS                      (* HandleAnnounce called *)
+| OAnnE (now : Z) (ih : bytes) (param : option tokv) (o : Z) (o_msg : bytes).   (* ... and returned *)
+
 Inductive case15 :=
 | CHist (iss aud : bytes) (ops : list hop)
 | CRace (detected : bool)
      (* refresh goroutine || HandleAnnounce under the race detector: a runtime fact, no model content *)
-| CConc (iss aud : bytes) (old new : list (bytes * Z)) (now : Z) (ih : bytes) (obs : list (tokv * Z * Z)).
+| CConc (iss aud : bytes) (old new : list (bytes * Z)) (now : Z) (ih : bytes) (obs : list (tokv * Z * Z))
      (* verdict counts (accepted, rejected) per token while the key set flips between old and new *)
+| COverlap (iss aud : bytes) (versions : list (list (bytes * Z))) (evs : list oev).
+     (* announces issued one after the other while fetches of the JWK set are in flight (the endpoint holds a
+        response back) and the issuer rotates: the log in the order the driver observed the events *)
 
 Definition slack : Z := 5 * 10 ^ 9.   (* never alarm within 5 s of an exp/nbf cutoff *)
 
@@ -105,6 +115,33 @@ Definition conc_bad (cfg : config) (old new : list (bytes * Z)) (now : Z) (ih : 
   let a_new := jwt_accept cfg (publish new) now ih (tok_of v) in
   ((0 <? n_acc) && negb (a_old || a_new)) || ((0 <? n_rej) && a_old && a_new).
 
+(* Overlap cases are judged against Proofs/JwtP.serial_fetch_register: the register only moves forward, so the
+   announces (sequential among themselves) must be explained by versions v1 <= v2 <= ... with
+   (newest version a returned refresh carried when announce i started, and v(i-1)) <= vi <= (newest version
+   served when announce i returned).  The least admissible version is chosen each time (optimal for a chain). *)
+Fixpoint first_version (f : nat -> bool) (lo : nat) (n : nat) : option nat :=
+  match n with
+  | O => None
+  | S n' => if f lo then Some lo else first_version f (S lo) n'
+  end.
+Fixpoint chk_overlap (cfg : config) (vs : list (list (bytes * Z))) (evs : list oev)
+         (srv ret prev lo : nat) (reason : Z) : Z :=
+  match evs with
+  | [] => reason
+  | OServed v :: r => chk_overlap cfg vs r (Nat.max srv v) ret prev lo reason
+  | OReturned v :: r => chk_overlap cfg vs r srv (Nat.max ret v) prev lo reason
+  | OAnnS :: r => chk_overlap cfg vs r srv ret prev (Nat.max ret prev) reason
+  | OAnnE now ih param o o_msg :: r =>
+    let ok v := fst (chk_announce cfg (publish (nth v vs [])) now ih param o o_msg) =? 0 in
+    match first_version ok lo (S srv - lo) with
+    | Some v => chk_overlap cfg vs r srv ret v lo reason
+    | None =>
+      (* no version explains it: report the clause the announce breaks under the NEWEST version served *)
+      let rs := fst (chk_announce cfg (publish (nth srv vs [])) now ih param o o_msg) in
+      chk_overlap cfg vs r srv ret prev lo (if reason =? 0 then (if rs <? 100 then 22 else rs) else reason)
+    end
+  end.
+
 Definition chk15 (c : case15) : verdict :=
   match c with
   | CHist i a ops =>
@@ -115,6 +152,9 @@ Definition chk15 (c : case15) : verdict :=
   | CConc i a old new now ih obs =>
     let cfg := {| cfg_iss := i; cfg_aud := a |} in
     (51, if existsb (conc_bad cfg old new now ih) obs then 21 else 0)
+  | COverlap i a vs evs =>
+    let cfg := {| cfg_iss := i; cfg_aud := a |} in
+    (52, chk_overlap cfg vs evs 0 0 0 0 0)
   end.
 
 (* what the model expected: per announce the first failing check (0 = accept) under the
@@ -139,4 +179,12 @@ Definition explain15 (c : case15) : list Z :=
                 let v := fst (fst x) in
                 [reject_code (validate_jwt cfg (publish old) now ih (tok_of v));
                  reject_code (validate_jwt cfg (publish new) now ih (tok_of v))]) obs
+  | COverlap i a vs evs =>
+    (* per announce: the verdict under every version, oldest first *)
+    let cfg := {| cfg_iss := i; cfg_aud := a |} in
+    flat_map (fun e => match e with
+                       | OAnnE now ih (Some v) _ _ =>
+                         (-1) :: map (fun ks => reject_code (validate_jwt cfg (publish ks) now ih (tok_of v))) vs
+                       | _ => []
+                       end) evs
   end.
